@@ -306,6 +306,16 @@ func genExp(r *rand.Rand, id, maxLines, maxLen int) *Exp {
 				g.At = hexLo + 2*r.Intn((hexHi-hexLo+1)/2)
 			}
 		case 5:
+			if r.Intn(2) == 0 { // a positive time stamp with any leading digit and 1..9 digits: glued to the data it may look like hex data (both parities occur)
+				ts := int64(1 + r.Intn(9))
+				for j := r.Intn(9); j > 0; j-- {
+					ts = ts*10 + int64(r.Intn(10))
+				}
+				e.Recs[i].Ts = int32(ts)
+				lines[i] = []byte(fmt.Sprintf("%d %X\n", e.Recs[i].Ts, []byte(e.Recs[i].B)))
+				ln = lines[i]
+				sep = indexByte(ln, ' ')
+			}
 			g.Kind, g.At = "nosep", sep+1
 		case 6, 7:
 			if i+1 < n && e.Segs[i+1].Kind != "ok" {
